@@ -1,14 +1,15 @@
 //! C11: the real `TaskBlockingQueue` (src/proxy/blocking.rs) under a deterministic scheduler.
 //!
 //! Sender and controller threads are real OS threads.  Every `verif_hook::point` of
-//! blocking.rs / biatomic.rs parks the calling thread until the scheduler releases it, so exactly
-//! one thread runs between two scheduling decisions and one scheduler step = one SeqCst
-//! operation.  The scheduler executes seeded random schedules (quick) or enumerates schedules by
-//! DFS with sleep sets (thorough) and logs one op line per step (`s <i>` / `c <j>`); the
-//! observable of a step is: recorded events (inner sender / re-dispatch sender calls), the value
-//! returned by `send` / `blocking_done`, the next point the thread parks at, and the public
-//! observables `blocking_done()` / `get_blocking_state()` read by the scheduler after the step.
-//! The Lean driver replays the same op lines with `step?`.
+//! blocking.rs / biatomic.rs is a scheduling point: the arriving thread records the observable of
+//! the step it has just finished, asks the schedule who runs next and either goes on or wakes the
+//! chosen thread and blocks (baton passing), so exactly one thread runs between two scheduling
+//! decisions and one step = one SeqCst operation.  Schedules are seeded random (quick) or
+//! enumerated by a stateless DFS with sleep sets (thorough).  One op line per step (`s <i>` /
+//! `c <j>`); the observable of a step is: recorded events (inner sender / re-dispatch sender
+//! calls), the value returned by `send` / `blocking_done`, the next point the thread parks at,
+//! and the public observables `blocking_done()` / `get_blocking_state()` read right after the
+//! step.  The Lean driver replays the same op lines with `step?`.
 //!
 //! Oracle (on the implementation log only):
 //!  * barrier: once `blocking_done() && blocking` has been observed, no `handed` event until
@@ -17,6 +18,9 @@
 //!    left in the queue when all threads have finished and no handle is alive;
 //!  * timing (finding F11a): a task enqueued while blocking is not re-dispatched before blocking
 //!    became false, unless an explicit `stop_blocking()` did it.
+//!
+//! No thread can wedge the run silently: if no scheduling point is reached for `STEP_TIMEOUT`
+//! the process exits with `HARNESS-FAILURE` (exit code 3).
 use crossbeam_channel::{unbounded, Receiver, Sender};
 use serde_json::json;
 use std::cell::{Cell, RefCell};
@@ -1285,7 +1289,7 @@ fn main() {
             let (_, complete) = dfs(&mut s, &cfg, cap);
             s.stats.count(if complete { "dfs.config_exhausted" } else { "dfs.config_capped" });
         }
-        for _ in 0..2000 {
+        for _ in 0..1000 {
             let cfg = gen_config(&mut rng, &mut s.stats);
             random_case(&mut s, &cfg, &mut rng);
         }
